@@ -104,7 +104,7 @@ def free_port():
     return p
 
 
-def real_run(exe, wd, elf, lines, want_lines, timeout=20.0):
+def real_run(exe, wd, elf, lines, want_lines, timeout=60.0):
     """returns (list of received raw lines (bytes, without the newline), note)"""
     path = os.path.join(wd, "tcp.elf")
     open(path, "wb").write(elf)
@@ -118,7 +118,7 @@ def real_run(exe, wd, elf, lines, want_lines, timeout=20.0):
     try:
         conn = None
         t0 = time.time()
-        while time.time() - t0 < 10:
+        while time.time() - t0 < 30:
             try:
                 conn = socket.create_connection(("127.0.0.1", port), timeout=1.0)
                 break
@@ -132,7 +132,7 @@ def real_run(exe, wd, elf, lines, want_lines, timeout=20.0):
         payload = "".join(l + "\n" for l in lines + ["cmd:start"]).encode()
         # wait for ready first
         t0 = time.time()
-        while b"\n" not in got and time.time() - t0 < 10:
+        while b"\n" not in got and time.time() - t0 < 30:
             try:
                 d = conn.recv(65536)
                 if not d:
@@ -189,7 +189,16 @@ def run(exe, runner, wd, tier, seed):
     for cid, (elf, lines) in enumerate(cases, 1):
         wire = expect.get(cid, b"")
         want = [b"ready"] + wire.split(b"\n")[:-1]
-        got, note = real_run(exe, wd, elf, lines, len(want))
+        # the exchange runs over a real socket against a real process on a possibly busy host: a scenario that does not come out
+        # right is repeated (fresh process, fresh port) and only counts when it fails every time - a defect in the framing or in the
+        # line handling is deterministic, a scheduling hiccup is not
+        for attempt in range(3):
+            got, note = real_run(exe, wd, elf, lines, len(want))
+            if got is not None and not note:
+                raw0 = got.split(b"\n")
+                if [x for x in raw0[:-1] if not x.startswith(b"sync:")] == want and raw0[-1] == b"":
+                    break
+            out["retries"] = out.get("retries", 0) + 1
         if got is None:
             out["violations"].append({"case": cid, "why": note, "lines": lines, "elf": elf.hex()})
             continue
